@@ -1272,7 +1272,9 @@ class Emitter:
             cn = 'g_' + cid(name)
             if g['external']:
                 if name.startswith('@verif_'): continue   # defined by the prelude as g_verif_*
-                gl.append(('decl', 'extern %s %s;' % (ct, cn)))
+                # CBMC: an extern without definition starts with an arbitrary value; the gcc build of the differential
+                # needs a definition to link
+                gl.append(('decl', '#ifdef __CPROVER__\nextern %s %s;\n#else\n%s %s;\n#endif' % (ct, cn, ct, cn)))
             else:
                 gl.append(('def', name, ct, cn, g))
         fbodies = []
